@@ -128,6 +128,12 @@ def install_stream_seam():
             return orig(self, *a, **k)
         finally:
             _state["in_indelpost"] = False
+            # observation only: the (not supporting, supporting) counts the realigner left per catalogued indel
+            try:
+                _state.setdefault("realigned", []).append(
+                    {f"{p}:{o}": [int(v[0]), int(v[1])] for (p, o), v in self._indel_sites.items()})
+            except Exception:
+                pass
 
     aldy.sam.Sample._realign_indels = _realign_indels
     _installed["ok"] = True
@@ -137,3 +143,4 @@ def reset():
     _state["opens"] = 0
     _state["in_indelpost"] = False
     _state["per_file"] = {}
+    _state["realigned"] = []
